@@ -12,7 +12,12 @@ UNSAVED = {"self-insert", "backward-kill-word", "digit-argument", "vi-arg-digit"
 
 def gen(rnd, kind):
     vi = rnd.random() < 0.25
-    cmds = E.type_text(rnd.choice(E.TEXTS))
+    hist = None
+    if rnd.random() < 0.25:      # multi-byte / multi-line text, through a history entry
+        hist = [rnd.choice(E.HTEXTS)]
+        cmds = [("previous-history",)]
+    else:
+        cmds = E.type_text(rnd.choice(E.TEXTS))
     if vi:
         cmds.append(("vi-movement-mode",))
     undo = ("vi-undo",) if vi else ("undo",)
@@ -47,7 +52,7 @@ def gen(rnd, kind):
         for _ in range(rnd.randrange(2, 10)):
             r = rnd.random()
             cmds += [undo] if r < 0.4 else ([("redo",)] if r < 0.6 else some_edits(1))
-    return {"vi": vi, "hist": None, "cmds": cmds, "kind": kind, "mark": mark}
+    return {"vi": vi, "hist": hist, "cmds": cmds, "kind": kind, "mark": mark}
 
 
 def check(rep, tier, seed):
@@ -98,7 +103,7 @@ def check(rep, tier, seed):
             # (b) enough undos reach the initial (empty) buffer
             nund = len(names) - s["mark"]
             saved_states = len({l for l in lines[:s["mark"] + 1]})
-            if nund >= saved_states + 1 and lines[-1] != ():
+            if nund >= saved_states + 1 and lines[-1] != () and s["hist"] is None:
                 fails.append("(b) %d undos over %d distinct states end at %r, not at the initial empty line" % (nund, saved_states, txt(lines[-1])))
         if s["kind"] == "redo" and not fails:
             target = lines[s["mark"]]
@@ -110,7 +115,7 @@ def check(rep, tier, seed):
                     known["redo_unsaved"] += 1        # the state before the undos was never saved
                 else:
                     fails.append("(c) n undos then n redos give %r, not %r" % (txt(lines[-1]), txt(target)))
-        if s["kind"] == "rewalk" and not fails:
+        if s["kind"] == "rewalk" and not fails and s["hist"] is None:
             if lines[-1] != ():
                 k_edit = len(names) - 7
                 if lines[k_edit + 1] != lines[k_edit]:      # the edit at the oldest state changed the buffer (was saved)
